@@ -39,7 +39,7 @@ func checkC20(c *core.Ctx) error {
 	p := &plan{prop: "C20", procs: nprocs(), logRuns: 40, logLines: 700}
 	maxN := 4
 	p.cfgs = doCfgs(2, maxN)
-	p.mc = []mcRun{{name: fmt.Sprintf("do: 2..%d functions x every failing subset x rendezvous on/off", maxN), cfgText: doMC(maxN), workers: 4}}
+	p.mc = []mcRun{{name: fmt.Sprintf("do: 2..%d functions x every failing subset x rendezvous on/off", maxN), cfgText: doMC(maxN), workers: 1}}
 	p.simCfg = simCfg(`"do"`, maxN, 0, 0)
 	p.nSim = 300
 	p.stress = 4
